@@ -42,8 +42,17 @@ func init() {
 		"vfTypeErrors": vfTypeErrors,
 		"vfExec":       vfExec,
 		"vfDeepEqual":  vfDeepEqual,
+		"vfRandConcrete": func(p *path, _ *frame, a []value) value {
+			p.randConcrete = a[0].(*Term).IsTrue()
+			return nil
+		},
 		"vfAssertTerminates": func(p *path, caller *frame, a []value) value {
-			return vfAssert(p, caller, []value{vfTerminates(p, caller, a[:1]), a[1]})
+			t := vfTerminates(p, caller, a[:1]).(*Term)
+			vfAssert(p, caller, []value{t, a[1]})
+			if t.IsFalse() {
+				p.abort(abortDone, "") // natively the process running the code is dead: nothing runs after it
+			}
+			return nil
 		},
 		"vfFileExists": vfFileExists,
 		"vfLoadResult": vfLoadResult,
@@ -557,10 +566,11 @@ type nonTermination struct{}
 // vfTerminates(f): runs f under a local recursion bound (150 frames) and step budget; reports
 // false when the bound is hit (natively a non-terminating recursion overflows the stack).
 func vfTerminates(p *path, caller *frame, args []value) (res value) {
-	savedLimit := p.depthLimit
+	savedLimit, savedSteps := p.depthLimit, p.stepLimit
 	p.depthLimit = p.depth + 150
+	p.stepLimit = p.steps + 1000000 // a loop that runs for 1,000,000 instructions is taken not to end
 	defer func() {
-		p.depthLimit = savedLimit
+		p.depthLimit, p.stepLimit = savedLimit, savedSteps
 		if r := recover(); r != nil {
 			if _, ok := r.(nonTermination); ok {
 				res = p.tc.ff
